@@ -165,6 +165,21 @@ func (p *c04) chainAt(i int) *c04chain {
 		}
 		return c
 	}
+	if j := i - p.nDecor; j < len(c04LongLens)*len(c04LongOps) {
+		// long chains ("all operator sequences"): hundreds of operators of one or two precedence levels, whose
+		// parenthesised form nests as deep as the chain is long
+		n, ops := c04LongLens[j/len(c04LongOps)], c04LongOps[j%len(c04LongOps)]
+		for x := 0; x < n; x++ {
+			c.ops = append(c.ops, ops[(x*x+x/3)%len(ops)])
+		}
+		c.fill(nil)
+		for x := range c.operands {
+			if _, isName := c.operands[x].(*gen.EName); isName {
+				c.operands[x] = &gen.EName{Name: c04name(x % 14)}
+			}
+		}
+		return c
+	}
 	r := gen.Rng(p.seed, "c04", i)
 	n := 5 + r.Intn(8)
 	for x := 0; x < n; x++ {
@@ -502,6 +517,12 @@ func astShape(n parse.Node) string {
 	}
 	return n.String()
 }
+
+// c04LongLens x c04LongOps: the long chains at the head of the random cases.
+var (
+	c04LongLens = []int{40, 150, 250, 600, 1500}
+	c04LongOps  = [][]string{{"-"}, {"-", "+"}, {"*", "-"}, {"**"}, {"~"}, {"or", "and"}, {"//", "%", "*"}, {"==", "-", "b-or"}, {"b-and", "b-xor", "+"}, {"<", "-", "is"}}
+)
 
 var c04Valuations = []map[string]interface{}{
 	{"v0": 1, "v1": 2, "v2": 3, "v3": 4, "v4": 5, "v5": 2, "v6": 1, "v7": 3, "v8": 2, "v9": 1, "v10": 2, "v11": 3, "v12": 1, "v13": 2},
